@@ -1,17 +1,17 @@
 #!/bin/bash
 # tools/final_runs.sh - the silence sweeps of DESIGN.md 8.3 on /repo's working tree: every quick check at
 # VERIF_SEED 1-5 (no evidence written), every thorough check at seed 2 (no evidence) and then at seed 1
-# (writes /verif/evidence/<id>.json). Prints one line per run; anything but exit=0 is followed by its report.
+# (writes /verif/evidence/<id>.json). FINAL_QUICK_SEEDS / FINAL_THOROUGH_SEEDS select a subset. Prints one line per run; anything but exit=0 is followed by its report.
 cd /verif
 ALL="C01 C02 C03 C04 C05 C06 C07 C08 C09 C10 C11 C12 C13 C14 C15 C16 C17 C18 C19"
 echo "##### QUICK SEEDS"
-for s in 1 2 3 4 5; do for p in $ALL; do
+for s in ${FINAL_QUICK_SEEDS:-1 2 3 4 5}; do for p in $ALL; do
   out=$(VERIF_NOEVIDENCE=1 VERIF_SEED=$s ./check $p quick 2>&1 | tr -d '\000'; exit ${PIPESTATUS[0]}); code=$?
   echo "quick seed=$s $p exit=$code $(echo "$out" | tail -1 | cut -c1-150)"
   if [ $code -ne 0 ] || echo "$out" | grep -q "VIOLATION\|KNOWN-FINDING"; then echo "$out" | grep -m2 -A1 "VIOLATION\|KNOWN\|INCONCLUSIVE-EMPTY" | cut -c1-900; fi
 done; done
 echo "##### THOROUGH"
-for s in 2 1; do for p in C12 C03 C04 C07 C16 C17 C18 C19 C05 C14 C15 C06 C08 C11 C09 C13 C10 C01 C02; do
+for s in ${FINAL_THOROUGH_SEEDS:-2 1}; do for p in C12 C03 C04 C07 C16 C17 C18 C19 C05 C14 C15 C06 C08 C11 C09 C13 C10 C01 C02; do
   NE=1; [ $s = 1 ] && NE=""
   t0=$(date +%s); out=$(VERIF_NOEVIDENCE=$NE VERIF_SEED=$s ./check $p thorough 2>&1 | tr -d '\000'; exit ${PIPESTATUS[0]}); code=$?; t1=$(date +%s)
   echo "thorough seed=$s $p exit=$code wall=$((t1-t0))s $(echo "$out" | tail -1 | cut -c1-150)"
